@@ -14,7 +14,8 @@ RULE = ('Hypothesis-generated SimNet programs: 1-4 interactions (stream responde
         'fragments each, completion / error / requester cancel, sender drain blocked and unblocked by operations, '
         'fragment sizes 64-1024 or none, byte-stream and message framing; in a quarter of the programs the first requests, '
         'REQUEST_N and cancels are queued while connect() is still waiting for its transport (SETUP is then inserted in '
-        'front of them). Oracle: per stream the send log has '
+        'front of them). Plus wide programs: 17-48 requests with multi-fragment payloads queued at once (as many partial '
+        'frames in flight as streams). Oracle: per stream the send log has '
         'contiguous fragment trains and reassembles (independent reassembler) to exactly the frames the application '
         'handed over, in hand-over order, and the peer application receives the same sequence. Non-trivial = at '
         'some hand-over the send queue already held an unfinished frame of the same stream and one of the two had '
@@ -161,7 +162,7 @@ REGRESSION = [
 ]
 
 
-def shard(tier, seed, n):
+def shard(tier, seed, n, wide=False):
     common.use_repo()
     stats = common.Stats()
     known = common.Known(PID)
@@ -172,6 +173,10 @@ def shard(tier, seed, n):
             for v in common.judge(stats, known, p, vs):
                 stats.violations.append((v, p))
         return stats
+    if wide:
+        from harness.checks import c01
+        common.hyp_search(stats, known, c01.wide_programs(), prop, n, seed, classify=classify, shrink=False)
+        return stats
     common.hyp_search(stats, known, programs(), prop, n, seed, classify=classify, shrink=True)
     return stats
 
@@ -181,6 +186,7 @@ def run(tier, seed):
     total = 3200 if tier == 'quick' else 48000
     nsh = common.NPROC
     jobs = [dict(tier=tier, seed=0, n=None)] + [dict(tier=tier, seed=s, n=total // nsh) for s in common.shard_seeds(seed, nsh)]
+    jobs += [dict(tier=tier, seed=s + 17, n=(32 if tier == 'quick' else 800) // 4, wide=True) for s in common.shard_seeds(seed, 4)]
     stats = common.run_shards(__name__, 'shard', jobs)
     return common.finish(PID, tier, seed, LEVEL, RULE, stats, t0, ASSUMPTIONS)
 
